@@ -734,32 +734,52 @@ def _strings(prog: Program, run: Run) -> None:
     R = "C02.R5"
     f = prog.func("odxtools.encoding:get_string_encoding")
     cfg = CFG(f.node)
-    table: Dict[str, str] = {}
-    for r in [x for x in walk_no_nested(f.node) if isinstance(x, ast.Return) and x.value is not
-              None]:
-        owner = [x for x in walk_no_nested(f.node) if isinstance(x, ast.If) and any(
-            b is r for b in x.body)]
-        if not owner:
-            continue
-        t = owner[0].test
-        encs = sorted({ch[-1] for n in ast.walk(t) for ch in [attr_chain(n)]
-                       if ch and len(ch) == 2 and ch[0] == "Encoding"})
-        types = sorted({ch[-1] for n in ast.walk(t) for ch in [attr_chain(n)]
-                        if ch and len(ch) == 2 and ch[0] == "DataType"})
-        table["/".join(encs + types)] = ast.unparse(r.value)
-    want = {
-        "UTF8/A_UTF8STRING": "'utf-8'",
-        "UCS2/A_UNICODE2STRING": "'utf-16-be' if is_highlow_byte_order else 'utf-16-le'",
-        "ISO_8859_1/A_ASCIISTRING": "'iso-8859-1'",
-        "ISO_8859_2": "'iso-8859-2'",
-        "WINDOWS_1252": "'cp1252'",
-    }
-    for k, v in want.items():
-        if table.get(k) == v:
-            run.ok(R, "get_string_encoding", f"{k} -> {v}", f.loc)
-        else:
-            run.violation(R, "get_string_encoding", f"codec-{k}",
-                          f"({k}) maps to {table.get(k)}, ODX prescribes {v}", f.loc)
+    # the decision table, evaluated for every (string type, encoding, byte order): independent
+    # of how the chain is written (elif order, merged tests, conditional expressions)
+    from ..absint import select_path
+    from ..cfg import symbolic_returns
+    paths = symbolic_returns(f.node)
+    pt, pe, pb = f.params()[0], f.params()[1], f.params()[2]
+
+    def spec(t: str, e: str, hl: bool) -> Optional[str]:
+        if e == "Encoding.UTF8" or (t == "DataType.A_UTF8STRING" and e is None):
+            return "utf-8"
+        if e == "Encoding.UCS2" or (t == "DataType.A_UNICODE2STRING" and e is None):
+            return "utf-16-be" if hl else "utf-16-le"
+        if e == "Encoding.ISO_8859_1" or (t == "DataType.A_ASCIISTRING" and e is None):
+            return "iso-8859-1"
+        if e == "Encoding.ISO_8859_2":
+            return "iso-8859-2"
+        if e == "Encoding.WINDOWS_1252":
+            return "cp1252"
+        return None
+    bad: Dict[str, str] = {}
+    n_ok = 0
+    for t in ("DataType.A_UTF8STRING", "DataType.A_ASCIISTRING", "DataType.A_UNICODE2STRING"):
+        for e in (None, "Encoding.UTF8", "Encoding.UCS2", "Encoding.ISO_8859_1",
+                  "Encoding.ISO_8859_2", "Encoding.WINDOWS_1252"):
+            for hl in (True, False):
+                sel = select_path(paths, {pt: t, pe: e, pb: hl})
+                got = None
+                if sel is not None and isinstance(sel[1], ast.Constant):
+                    got = sel[1].value
+                want_v = spec(t, e, hl)
+                if got == want_v:
+                    n_ok += 1
+                else:
+                    k = f"{(e or 'no encoding').split('.')[-1]}/{t.split('.')[-1]}"
+                    bad.setdefault(k, f"({t.split('.')[-1]}, {e}, "
+                                   f"{'high-low' if hl else 'low-high'}) maps to {got!r}, ODX "
+                                   f"prescribes {want_v!r}")
+    if not bad:
+        run.ok(R, "get_string_encoding", f"all {n_ok} combinations of string type, encoding and "
+               "byte order map to the codec ODX prescribes", f.loc)
+    for k, msg in sorted(bad.items()):
+        run.violation(R, "get_string_encoding", f"codec-{k}", msg, f.loc)
+    for k in ("UTF8/A_UTF8STRING", "UCS2/A_UNICODE2STRING", "ISO_8859_1/A_ASCIISTRING",
+              "ISO_8859_2", "WINDOWS_1252"):
+        if not any(b_.startswith(k.split("/")[0]) for b_ in bad):
+            run.ok(R, "get_string_encoding", f"{k}: as prescribed", f.loc)
     # both directions use the same helper with the same arguments
     for q in ("EncodeState.emplace_atomic_value", "DecodeState.extract_atomic_value",
               "MinMaxLengthType.encode_into_pdu"):
